@@ -620,11 +620,12 @@ class Status:
             stream: IO stream to store output
         """
         new_data = {x: self.data[x] for x in self.data}
-        # VV: See method docstring
-        if 'error-description' in self.data:
-            self.data['error-description'] = self.data['error-description'].encode('unicode_escape').decode('utf-8')
+        # VV: See method docstring - escape the copy which is written out, never the in-memory value, otherwise
+        # every subsequent update escapes the (already escaped) description again
+        if 'error-description' in new_data:
+            new_data['error-description'] = new_data['error-description'].encode('unicode_escape').decode('utf-8')
         for key in sorted(new_data):
-            stream.write("%s=%s\n" % (key, self.data[key]))
+            stream.write("%s=%s\n" % (key, new_data[key]))
 
     # Output
     def update(self):
